@@ -103,24 +103,29 @@ def evaluate(case):
         items = goods
     else:
         completed = pos
-        items = None if kind in ('iter-raises', 'iter-valueerror') else goods[:pos] + [bad_item(kind, ar)] + goods[pos:]
+        items = None if kind in ('iter-raises', 'iter-valueerror', 'iter-abort') else goods[:pos] + [bad_item(kind, ar)] + goods[pos:]
     if entry == 'append':
         arg = items[0]
         call = lambda: ra.append(arg)
     else:
         if items is None:
-            exc = faults.IterFault if kind == 'iter-raises' else ValueError
+            exc = {'iter-raises': faults.IterFault, 'iter-abort': faults.IterAbort}.get(kind, ValueError)
             arg = faults.faulty_iter(goods, pos, exc=exc, as_generator=(entry == 'iterappend-gen'))
         elif entry == 'iterappend-gen':
             arg = (c for c in items)
         else:
             arg = list(items)
         call = lambda: ra.iterappend(arg)
+    def outcome(fn):
+        try:
+            return outcome_of(fn)
+        except faults.IterAbort as e:      # not an Exception: arrives like KeyboardInterrupt
+            return 'raises', e
     if kind == 'rlimit':
         with faults.file_size_limit(L):
-            w, v = outcome_of(call)
+            w, v = outcome(call)
     else:
-        w, v = outcome_of(call)
+        w, v = outcome(call)
     expected = list(orig) + goods[:completed]
     V = []
     where = 'first item' if completed == 0 else 'later item'
@@ -166,9 +171,9 @@ def build_cases(tier):
         for ar in (0, 1, 2):
             for n in (0, 1, 2, 3):
                 for pos in range(0, n + 1):
-                    for kind in ('iter-raises', 'iter-valueerror', 'badatom', 'badrank', 'unconv', 'badatom0', 'badzero'):
+                    for kind in ('iter-raises', 'iter-valueerror', 'iter-abort', 'badatom', 'badrank', 'unconv', 'badatom0', 'badzero'):
                         for entry in ('iterappend-list', 'iterappend-gen'):
-                            if q and entry == 'iterappend-gen' and kind not in ('iter-raises', 'badatom'):
+                            if q and entry == 'iterappend-gen' and kind not in ('iter-raises', 'iter-abort', 'badatom'):
                                 continue
                             cases.append({'start': start, 'atom_rank': ar, 'entry': entry, 'nitems': n, 'kind': kind,
                                           'position': pos})
@@ -216,7 +221,7 @@ def run(tier):
         'C10', tier, 'dv.checks.c10:evaluate', cases, chunk=8, level='fault_enumeration', engine='faults',
         rule=('one deviation per execution: start {no subarrays, 3 subarrays of 4 KiB, 700 zero-length subarrays, 100 values with '
               'an 8-bit index type} x atom rank 0..2 x 0..3 items (zero-length ones included) x failure position 0..n x kind '
-              '{iterable raises, wrong atom (also zero-length items of a wrong atom and atoms with a zero extent), wrong rank, unconvertible item, index overflow, write failure on the values file, '
+              '{iterable raises (an Exception, or a BaseException such as KeyboardInterrupt), wrong atom (also zero-length items of a wrong atom and atoms with a zero extent), wrong rank, unconvertible item, index overflow, write failure on the values file, '
               'write failure on the indices file (RLIMIT_FSIZE at enumerated byte offsets)} x entry {append, iterappend(list), '
               'iterappend(generator)}; oracle: raises, RaggedArray opens, independent ragged decoder accepts the directory, '
               'subarrays == original + completed items, live == fresh'),
